@@ -27,19 +27,20 @@ import (
 // ---- specs (what -replay re-runs) -----------------------------------------------------------
 
 type spec struct {
-	Kind     string    `json:"kind"` // seq | wide | conc
-	Variant  string    `json:"variant"`
-	Class    string    `json:"class"`
-	Cap      int64     `json:"cap"`
-	KK       int       `json:"kk"`
-	Facade   bool      `json:"facade,omitempty"`
-	Ops      []opRec   `json:"ops,omitempty"`
-	N        uint64    `json:"n,omitempty"`     // wide: shard count
-	XHash    bool      `json:"xhash,omitempty"` // wide: the XHash constructor
-	Univ     []int64   `json:"univ,omitempty"`  // wide: keys probed after every call
-	Progs    [][]opRec `json:"progs,omitempty"` // conc: one program per goroutine
-	Yields   [][]int   `json:"yields,omitempty"`
-	Attempts int       `json:"attempts,omitempty"`
+	Kind     string     `json:"kind"` // seq | wide | conc
+	Variant  string     `json:"variant"`
+	Class    string     `json:"class"`
+	Cap      int64      `json:"cap"`
+	KK       int        `json:"kk"`
+	Facade   bool       `json:"facade,omitempty"`
+	Ops      []opRec    `json:"ops,omitempty"`
+	N        uint64     `json:"n,omitempty"`     // wide: shard count
+	XHash    bool       `json:"xhash,omitempty"` // wide: the XHash constructor
+	Univ     []int64    `json:"univ,omitempty"`  // wide: keys probed after every call
+	Progs    [][]opRec  `json:"progs,omitempty"` // conc: one program per goroutine
+	Yields   [][]int    `json:"yields,omitempty"`
+	Attempts int        `json:"attempts,omitempty"`
+	Burst    *burstSpec `json:"burst,omitempty"` // kind = burst
 }
 
 func (s spec) replayArg() string {
@@ -527,6 +528,7 @@ type tally struct {
 	opHist                                                                                map[string]int
 	shardHist                                                                             map[string]int
 	overlapPairs, reordered, concCases, noLinearisation                                   int
+	burstRounds, burstCalls, burstAnomalies                                               int
 }
 
 var stat = tally{opHist: map[string]int{}, shardHist: map[string]int{}}
@@ -619,6 +621,16 @@ func emitSpec(e *vh.Env, s spec, unresolved *int) {
 		stat.ops += len(steps)
 		stat.shardHist[fmt.Sprintf("shards=%d", s.N)]++
 		e.Emit(wideCase(s, steps))
+	case "burst":
+		n := s.Attempts
+		if n == 0 {
+			n = 1
+		}
+		for i := 0; i < n; i++ {
+			c := burstCase(*s.Burst)
+			c.Replay = spec{Kind: "burst", Burst: s.Burst}.replayArg()
+			e.Emit(c)
+		}
 	case "conc":
 		n := s.Attempts
 		if n == 0 {
@@ -687,6 +699,9 @@ func main() {
 			if s.Kind == "conc" {
 				s.Attempts = 20
 			}
+			if s.Kind == "burst" {
+				s.Attempts = 40 // the schedule is the runtime's: repeat the same programs
+			}
 			emitSpec(e, s, &unresolved)
 			return
 		}
@@ -743,6 +758,21 @@ func main() {
 				emitSpec(e, genConc(e.Rnd, v), &unresolved)
 			}
 		}
+		// same-key bursts, observed at quiescence
+		nBurst := e.Scale(24, 500) // rounds per (variant, single): each round = 4..16 goroutines x 48..127 keys
+		for _, v := range []string{"std", "tiny"} {
+			for i, m := 0, boost("burst/"+v+"/single", nBurst); i < m; i++ {
+				b := genBurst(e.Rnd, v, false)
+				emitSpec(e, spec{Kind: "burst", Burst: &b}, &unresolved)
+			}
+			for i, m := 0, boost("burst/"+v+"/wide", nBurst/4); i < m; i++ {
+				b := genBurst(e.Rnd, v, true)
+				emitSpec(e, spec{Kind: "burst", Burst: &b}, &unresolved)
+			}
+		}
+		e.Meta["burst_rounds"] = stat.burstRounds
+		e.Meta["burst_calls"] = stat.burstCalls
+		e.Meta["burst_rounds_with_anomaly_seen_by_harness_advisory"] = stat.burstAnomalies
 		e.Meta["conc_unresolved_search_budget"] = unresolved
 		e.Meta["calls_total"] = stat.ops
 		e.Meta["seq_op_histogram"] = stat.opHist
